@@ -121,6 +121,16 @@ impl Environment {
         }
     }
 
+    /// Replace the set of raises which are properly handled.
+    ///
+    /// Used to restore the set after leaving a handle.
+    pub fn with_raises_caught(&self, raises: &HashSet<TrueName>) -> Environment {
+        Environment {
+            raises_caught: raises.clone(),
+            ..self.clone()
+        }
+    }
+
     /// Specify that we are in a loop.
     pub fn in_loop(&self) -> Environment {
         Environment {
